@@ -819,6 +819,12 @@ func chessOps(o *Out, seed uint64, n int, tier string, corpusPath string) {
 	}
 	for g, tries := 0, 0; g < nlong && tries < 10*nlong; tries++ {
 		moves := longGame(rng)
+		if g == 0 && tries < 5 {
+			moves = longGameOf(rng, 600) // the full length C03 names
+			if len(moves) < 600 {
+				continue
+			}
+		}
 		if len(moves) > 255 {
 			o.Run("play startpos " + strings.Join(moves, " "))
 			o.Stat("long_games")
@@ -944,9 +950,13 @@ func edgeOps(o *Out, seed uint64, n int) {
 
 // longGame: a random legal game from the start position of 260..600 plies (shorter if it ends), preferring quiet piece moves so that it lasts
 func longGame(rng *Rng) []string {
+	return longGameOf(rng, 260+rng.Intn(341))
+}
+
+// longGameOf: the same with a given target length (600 = the upper end of the range C03 quantifies over)
+func longGameOf(rng *Rng, target int) []string {
 	p := *position.New()
 	var moves []string
-	target := 260 + rng.Intn(341)
 	for len(moves) < target {
 		lms := legalMoves(&p)
 		if len(lms) == 0 {
